@@ -191,7 +191,22 @@ def F28():  # C07 falsy user-class object is not found by PlainName(multi_metamo
     mm = metamodel_from_str(g, classes=[Leaf]); mm.register_scope_providers({"*.*": PlainName(multi_metamodel_support=False)})
     try: mm.model_from_str("leaf a other b ref a"); return False
     except TextXError: return True
-ALL = [F28, F1, F2, F3, F4, F5, F6, F7, F8, F9, F10, F11, F12, F13, F14, F15_16, F18, F19, F20, F21, F22, F23, F24, F26, F27]
+def F36():  # C15 a model processor failing for an imported model leaves the user classes instrumented (global repository)
+    import os, tempfile
+    from textx.scoping.providers import FQNImportURI
+    class Item:
+        def __init__(self, parent=None, name=None): self.parent = parent; self.name = name
+    g = "Model: imports*=Import items*=Item; Import: 'import' importURI=STRING; Item: 'item' name=ID;"
+    d = tempfile.mkdtemp()
+    open(os.path.join(d, "b.m"), "w").write("item b1\n"); open(os.path.join(d, "a.m"), "w").write('import "b.m"\nitem a1\n')
+    mm = metamodel_from_str(g, classes=[Item], global_repository=True); mm.register_scope_providers({"*.*": FQNImportURI()})
+    def proc(model, metamodel):
+        if model._tx_filename.endswith("b.m"): raise TextXError("b is rejected")
+    mm.register_model_processor(proc)
+    try: mm.model_from_file(os.path.join(d, "a.m")); return False
+    except TextXError: pass
+    return "_tx_instrumented" in Item.__dict__ or len(Item._tx_obj_attrs) > 0
+ALL = [F36, F28, F1, F2, F3, F4, F5, F6, F7, F8, F9, F10, F11, F12, F13, F14, F15_16, F18, F19, F20, F21, F22, F23, F24, F26, F27]
 if __name__ == "__main__":
     sel = sys.argv[1:]
     for w in ALL:
